@@ -1,5 +1,6 @@
 import Driver.Codec
 import NirVerif.Model.Graph
+import NirVerif.Model.FS
 import NirVerif.Generated.LifExactFloat
 import NirVerif.Generated.CubaRefFloat
 /-
@@ -127,6 +128,37 @@ def handle (j : Json) : Except String Json := do
       let (z, v', I') := Generated.CubaFloat.cubaForward dt ts tm r vl vt w I v x
       pure (Json.mkObj [("z", .str (floatToHex z)), ("v", .str (floatToHex v')), ("I", .str (floatToHex I'))])
     | _ => throw "cuba_kernel arity"
+  | "fs_history" =>
+    let version ← (← j.getObjVal? "version").getStr?
+    let recs ← (← j.getObjVal? "graphs").getArr?
+    let mut graphs : Array Node := #[]
+    for r in recs do
+      match ← buildRecipe r with
+      | .ok g => graphs := graphs.push g
+      | .error _ => throw "graph pool entry not constructible"
+    let opsJ ← (← j.getObjVal? "ops").getArr?
+    let mut fs : FS := { content := none, openHandles := 0 }
+    let mut outs : Array Json := #[]
+    for oj in opsJ do
+      let a ← oj.getArr?
+      let name ← a[0]!.getStr?
+      let op ← match name with
+        | "write" => do
+            let k ← a[1]!.getNat?
+            match graphs[k]? with
+            | some g => pure (FsOp.write g)
+            | none => throw "bad graph index"
+        | "read" => pure FsOp.read
+        | "read_version" => pure FsOp.readVersion
+        | _ => throw "bad fs op"
+      let (fs', o) := fsStep version fs op
+      fs := fs'
+      outs := outs.push (match o with
+        | .done => Json.mkObj [("done", .bool true), ("open", .num (JsonNumber.fromNat fs'.openHandles))]
+        | .graph g => Json.mkObj [("g", nodeToJson g), ("open", .num (JsonNumber.fromNat fs'.openHandles))]
+        | .version v => Json.mkObj [("v", .str v), ("open", .num (JsonNumber.fromNat fs'.openHandles))]
+        | .failed e => Json.mkObj [("err", .str e.name), ("open", .num (JsonNumber.fromNat fs'.openHandles))])
+    pure (Json.mkObj [("outs", .arr outs)])
   | "to_dict" =>
     match ← buildRecipe (← j.getObjVal? "graph") with
     | .error e => pure (errJson e)
